@@ -27,6 +27,8 @@ import (
 	peer "github.com/libp2p/go-libp2p/core/peer"
 	mocknet "github.com/libp2p/go-libp2p/p2p/net/mock"
 	"go.uber.org/zap"
+	"google.golang.org/protobuf/proto"
+	"google.golang.org/protobuf/reflect/protoreflect"
 
 	"berty.tech/weshnet/v2/pkg/ipfsutil"
 	"berty.tech/weshnet/v2/pkg/protocoltypes"
@@ -248,3 +250,50 @@ func vSortedU64(xs []uint64) []uint64 {
 }
 
 var _ = fmt.Sprintf
+
+// vStructMutants: structural alterations of a protobuf message - every bytes field emptied, removed,
+// cut by one byte at either end, halved, reduced to one byte, extended by one byte; every
+// sub-message removed; every integer field set to 0 and to its maximum.
+type vMutant struct {
+	what string
+	data []byte
+}
+
+func vStructMutants(m proto.Message) []vMutant {
+	var out []vMutant
+	fs := m.ProtoReflect().Descriptor().Fields()
+	for i := 0; i < fs.Len(); i++ {
+		fd := fs.Get(i)
+		if fd.IsList() || fd.IsMap() {
+			continue
+		}
+		add := func(what string, f func(r protoreflect.Message)) {
+			c := proto.Clone(m)
+			f(c.ProtoReflect())
+			b, err := proto.Marshal(c)
+			if err == nil {
+				out = append(out, vMutant{string(fd.Name()) + " " + what, b})
+			}
+		}
+		switch fd.Kind() {
+		case protoreflect.BytesKind:
+			b := m.ProtoReflect().Get(fd).Bytes()
+			add("removed", func(r protoreflect.Message) { r.Clear(fd) })
+			add("extended by one byte", func(r protoreflect.Message) { r.Set(fd, protoreflect.ValueOfBytes(append(append([]byte(nil), b...), 0))) })
+			if len(b) > 0 {
+				add("cut by its last byte", func(r protoreflect.Message) { r.Set(fd, protoreflect.ValueOfBytes(b[:len(b)-1])) })
+				add("cut by its first byte", func(r protoreflect.Message) { r.Set(fd, protoreflect.ValueOfBytes(b[1:])) })
+				add("halved", func(r protoreflect.Message) { r.Set(fd, protoreflect.ValueOfBytes(b[:len(b)/2])) })
+				add("reduced to one byte", func(r protoreflect.Message) { r.Set(fd, protoreflect.ValueOfBytes(b[:1])) })
+			}
+		case protoreflect.MessageKind:
+			if m.ProtoReflect().Has(fd) {
+				add("removed", func(r protoreflect.Message) { r.Clear(fd) })
+			}
+		case protoreflect.Uint64Kind, protoreflect.Fixed64Kind:
+			add("zero", func(r protoreflect.Message) { r.Set(fd, protoreflect.ValueOfUint64(0)) })
+			add("maximal", func(r protoreflect.Message) { r.Set(fd, protoreflect.ValueOfUint64(^uint64(0))) })
+		}
+	}
+	return out
+}
